@@ -308,7 +308,21 @@ func finish(o *corr.Out, sc *scenario) {
 				nontrivial = true
 			}
 		}
-		o.Case("mgrtrace ev="+strings.Join(tr, ","), fmt.Sprintf("ok n=%d", len(tr)), nontrivial)
+		// the protocol checker speaks about the manager up to its termination: after the `term` report
+		// only the transport close is kept (on a terminated manager a caller that passed the term check
+		// earlier may still run against the closed stream buffer — theorem
+		// trace_accepted_client_until_term and its witness; the Sys membership above covers those runs)
+		var upto []string
+		termSeen := false
+		for _, e := range tr {
+			if !termSeen || strings.HasPrefix(e, "tport.close") {
+				upto = append(upto, e)
+			}
+			if strings.HasPrefix(e, "term:") {
+				termSeen = true
+			}
+		}
+		o.Case("mgrtrace ev="+strings.Join(upto, ","), fmt.Sprintf("ok n=%d", len(upto)), nontrivial)
 		o.Stat(fmt.Sprintf("mgrtrace:len%d", min(len(tr)/10*10, 60)))
 	}
 	// e2e scenarios have no model counterpart (yet): they are recorded as cases of the exploration
